@@ -273,7 +273,10 @@ pub fn run_tests(
 
     if verbose && !all_fixtures.is_empty() {
         println!("Discovered {} fixture(s):", all_fixtures.len());
-        for (name, fixture) in &all_fixtures {
+        // `all_fixtures` is a HashMap: list the fixtures sorted by name so the output is the same on every run.
+        let mut listed: Vec<_> = all_fixtures.iter().collect();
+        listed.sort_by(|a, b| a.0.cmp(b.0));
+        for (name, fixture) in listed {
             let scope_str = match fixture.scope {
                 FixtureScope::Function => "function",
                 FixtureScope::Module => "module",
@@ -705,11 +708,14 @@ fn expr_has_yield(expr: &crate::frontend::ast::Expr) -> bool {
 }
 
 fn get_autouse_fixtures(fixtures: &HashMap<String, FixtureInfo>, scope: FixtureScope) -> Vec<String> {
-    fixtures
+    let mut names: Vec<String> = fixtures
         .values()
         .filter(|f| f.autouse && f.scope == scope)
         .map(|f| f.name.clone())
-        .collect()
+        .collect();
+    // HashMap iteration order is arbitrary: keep the autouse fixtures in a stable (sorted) order.
+    names.sort();
+    names
 }
 
 fn extract_test_markers(
